@@ -792,6 +792,11 @@ func (z *Decimal) FMA(x, y, u *Decimal) *Decimal {
 	z0.neg = x.neg != y.neg
 
 	if x.form == finite && y.form == finite {
+		if u.form == inf {
+			// x * y + ±Inf: the exact product is finite even if its
+			// exponent is out of range
+			return z.Set(u)
+		}
 		// x * y (common case)
 		// prevent rounding in umul
 		prec := z0.prec
